@@ -6,6 +6,7 @@ import (
 	"context"
 	"fmt"
 	"io/ioutil"
+	"math"
 	"math/rand"
 	"net"
 	"os"
@@ -25,8 +26,9 @@ import (
 )
 
 const (
-	batchBound   = 100 // "full sync in batches of 100" (anchored mechanism, maxSyncRegionBatchSize)
-	pollWatchdog = 90 * time.Second
+	leaderLogCapacity = 10000 // defaultHistoryBufferSize of the syncer
+	batchBound        = 100   // "full sync in batches of 100" (anchored mechanism, maxSyncRegionBatchSize)
+	pollWatchdog      = 90 * time.Second
 )
 
 // ---- the two implementations of syncer.Server ----
@@ -72,11 +74,19 @@ func newNode(name string, clusterID uint64, url string) (*node, error) {
 	if err != nil {
 		return nil, err
 	}
+	n, err := newNodeAt(name, clusterID, url, dir)
+	if err != nil {
+		os.RemoveAll(dir)
+	}
+	return n, err
+}
+
+// newNodeAt opens (or re-opens) the region storage in dir.
+func newNodeAt(name string, clusterID uint64, url, dir string) (*node, error) {
 	ctx, cancel := context.WithCancel(context.Background())
 	rs, err := core.NewRegionStorage(ctx, dir, nil)
 	if err != nil {
 		cancel()
-		os.RemoveAll(dir)
 		return nil, err
 	}
 	n := &node{name: name, clusterID: clusterID, ctx: ctx, cancel: cancel, dir: dir, rs: rs,
@@ -173,6 +183,7 @@ type scenario struct {
 	Bursts     []int  `json:"live_bursts"`
 	Reconnect  bool   `json:"reconnect"`
 	Offline    int    `json:"offline_changes"`
+	Odd        bool   `json:"huge_ids_prefix_keys"`
 	Seed       int64  `json:"scenario_seed"`
 }
 
@@ -207,6 +218,7 @@ type world struct {
 	judged    int // captures already judged
 	nextID    uint64
 	splitDone map[uint64]bool
+	noSplit   bool
 	inOrder   map[uint64]bool
 	failed    bool
 }
@@ -225,10 +237,10 @@ func (w *world) stats(id uint64, zero bool) []core.RegionCreateOption {
 		return nil
 	}
 	return []core.RegionCreateOption{
-		core.SetWrittenBytes(1000000 + id*7 + uint64(w.rng.Intn(5))),
-		core.SetWrittenKeys(2000 + id*3 + uint64(w.rng.Intn(5))),
-		core.SetReadBytes(3000000 + id*11 + uint64(w.rng.Intn(5))),
-		core.SetReadKeys(4000 + id*5 + uint64(w.rng.Intn(5))),
+		core.SetWrittenBytes(1000000 + id%1000003*7 + uint64(w.rng.Intn(5))),
+		core.SetWrittenKeys(2000 + id%1000003*3 + uint64(w.rng.Intn(5))),
+		core.SetReadBytes(3000000 + id%1000003*11 + uint64(w.rng.Intn(5))),
+		core.SetReadKeys(4000 + id%1000003*5 + uint64(w.rng.Intn(5))),
 	}
 }
 
@@ -236,18 +248,38 @@ func (w *world) stats(id uint64, zero bool) []core.RegionCreateOption {
 // peer ids), leaders and flow statistics per the scenario.
 func (w *world) makeRegions(n int) []*core.RegionInfo {
 	out := make([]*core.RegionInfo, 0, n)
+	keyOf := key
+	if w.sc.Odd {
+		// ids at the top of the 64-bit range (2^64-1 included), keys that are prefixes of each other
+		// (job-1, job-10, job-100, a, a\x00, aa ...), first start key and last end key empty
+		w.nextID = math.MaxUint64 - uint64(4*n+16)
+		ks := [][]byte{[]byte("a"), []byte("a\x00"), []byte("a\x00\x00"), []byte("aa"), []byte("aaa"), []byte("aa\xff")}
+		for i := 0; len(ks) < n+1; i++ {
+			ks = append(ks, []byte(fmt.Sprintf("job-%d", i)))
+		}
+		sort.Slice(ks, func(a, b int) bool { return bytes.Compare(ks[a], ks[b]) < 0 })
+		keyOf = func(i int) []byte {
+			if i <= 0 {
+				return []byte("")
+			}
+			return ks[i-1]
+		}
+	}
 	for i := 0; i < n; i++ {
 		id := w.allocID()
+		if w.sc.Odd && i == n-1 {
+			id = math.MaxUint64
+		}
 		stores := w.rng.Perm(9)
 		var peers []*metapb.Peer
 		for k := 0; k < 3; k++ {
 			peers = append(peers, &metapb.Peer{Id: w.allocID(), StoreId: uint64(stores[k] + 1)})
 		}
-		end := key(i + 1)
+		end := keyOf(i + 1)
 		if i == n-1 {
 			end = []byte("")
 		}
-		meta := &metapb.Region{Id: id, StartKey: key(i), EndKey: end, Peers: peers,
+		meta := &metapb.Region{Id: id, StartKey: keyOf(i), EndKey: end, Peers: peers,
 			RegionEpoch: &metapb.RegionEpoch{ConfVer: uint64(1 + w.rng.Intn(4)), Version: uint64(1 + w.rng.Intn(4))}}
 		var leader *metapb.Peer
 		switch w.sc.LeaderMode {
@@ -260,6 +292,9 @@ func (w *world) makeRegions(n int) []*core.RegionInfo {
 		}
 		zero := w.sc.ZeroStats && w.rng.Intn(3) == 0
 		out = append(out, core.NewRegionInfo(meta, leader, w.stats(id, zero)...))
+	}
+	if w.sc.Odd {
+		w.nextID = 1 << 40 // ids of later changes stay clear of the wrap-around
 	}
 	return out
 }
@@ -431,6 +466,8 @@ func wirePhaseName(p string) string {
 		return "incremental-live"
 	case "reconnect":
 		return "incremental-reconnect"
+	case "live2":
+		return "incremental-live"
 	}
 	return p
 }
@@ -601,9 +638,16 @@ func (w *world) judgeWire(stream int, phaseTag string, requested uint64, catchUp
 		case haveEnd && lastEnd != newest:
 			r.Violation("wire-incomplete:"+phase+":does-not-reach-newest", fmt.Sprintf("catch-up from index %d ends at %d, the leader's next index is %d", requested, lastEnd, newest),
 				map[string]interface{}{"scenario": w.sc})
-		case !haveEnd && requested >= w.histBase && requested < newest:
-			r.Violation("wire-incomplete:"+phase+":nothing-sent", fmt.Sprintf("the follower asked for index %d inside the leader's log [%d,%d) and nothing was sent", requested, w.histBase, newest),
+		case !haveEnd && requested >= w.windowFirst() && requested < newest:
+			r.Violation("wire-incomplete:"+phase+":nothing-sent", fmt.Sprintf("the follower asked for index %d inside the leader's log [%d,%d) and nothing was sent", requested, w.windowFirst(), newest),
 				map[string]interface{}{"scenario": w.sc})
+		case !haveEnd && requested < w.windowFirst():
+			// the log has wrapped past the follower's index: nothing is sent, what the follower missed
+			// is not judged; only what is sent from now on is
+			r.Count("catch_up_requests_below_the_wrapped_window", 1)
+			w.sent = map[uint64]sentInfo{}
+		case haveEnd && requested < w.windowFirst():
+			r.Violation("wire-content:"+phase+":answer-for-index-below-window", fmt.Sprintf("index %d is below the log window [%d,%d) and still got an answer", requested, w.windowFirst(), newest), map[string]interface{}{"scenario": w.sc})
 		}
 	}
 }
@@ -734,7 +778,7 @@ func (w *world) nextChange() []*core.RegionInfo {
 		return []*core.RegionInfo{cur.Clone(core.SetPeers(keep), core.WithIncConfVer())}
 	case 3: // split
 		mid := append(append([]byte(nil), cur.GetStartKey()...), '5')
-		if w.splitDone[id] || (len(cur.GetEndKey()) > 0 && bytes.Compare(mid, cur.GetEndKey()) >= 0) {
+		if w.noSplit || w.splitDone[id] || (len(cur.GetEndKey()) > 0 && bytes.Compare(mid, cur.GetEndKey()) >= 0) {
 			break
 		}
 		right := cur.Clone(core.WithStartKey(mid), core.WithIncVersion())
@@ -806,6 +850,7 @@ func (w *world) apply(ri *core.RegionInfo) bool {
 func (w *world) burst(n int) bool {
 	var batch []*core.RegionInfo
 	for len(batch) < n {
+		w.noSplit = n-len(batch) < 2 // exactly n records
 		for _, ri := range w.nextChange() {
 			if !w.apply(ri) {
 				return false
@@ -943,7 +988,38 @@ func (w *world) run() {
 		r.Eval(1)
 		r.Count("sync_phases_incremental-reconnect", 1)
 		r.Distinct(fmt.Sprintf("reconnect|%s|%d|%d", sc.Branch, sc.N, sc.Offline))
+		if sc.Offline >= leaderLogCapacity-1 {
+			w.setPhase("live2")
+			base := w.liveRegionsCaptured(2, "live2")
+			before := len(w.pushed)
+			if !w.burst(30) {
+				return
+			}
+			total := len(w.pushed)
+			if !w.waitFor("RunServer to send the burst after the wrapped catch-up", func() bool {
+				return w.leaderNext() == w.histBase+uint64(total) && w.liveRegionsCaptured(2, "live2")-base >= total-before
+			}) {
+				return
+			}
+			if !w.waitFor("the follower to apply the burst", func() bool { return w.followerCaughtUp(2) }) {
+				return
+			}
+			w.judgeWire(2, "live2", 0, false)
+			w.judgeFollower("incremental-live")
+			r.Eval(1)
+			r.Count("sync_phases_after-wrapped-log", 1)
+			r.Distinct(fmt.Sprintf("wrapped|%d", sc.Offline))
+		}
 	}
+}
+
+// windowFirst: first index still held by the leader's log (capacity 10000 in pd).
+func (w *world) windowFirst() uint64 {
+	newest := w.histBase + uint64(len(w.pushed))
+	if uint64(len(w.pushed)) > leaderLogCapacity {
+		return newest - leaderLogCapacity
+	}
+	return w.histBase
 }
 
 // liveBase: number of log records that were not sent as live messages (recorded before connect).
@@ -979,6 +1055,13 @@ func syncScenarios(r *ev.Run, rng *rand.Rand) []scenario {
 		}
 		out = append(out, scenario{N: 250, Branch: "full", LeaderMode: "none", Bursts: []int{2}},
 			scenario{N: 201, Branch: "full", LeaderMode: "all", Bursts: []int{2}, Reconnect: true, Offline: 101})
+		out = append(out,
+			scenario{N: 250, Branch: "full", LeaderMode: "mixed", Odd: true, Bursts: []int{30}, Reconnect: true, Offline: 40},
+			scenario{N: 101, Branch: "incr", LeaderMode: "mixed", Odd: true, Bursts: []int{5}},
+			scenario{N: 1, Branch: "full", LeaderMode: "all", Odd: true, Bursts: []int{3}},
+			scenario{N: 2500, Branch: "full", LeaderMode: "mixed", Bursts: []int{3}},
+			// the leader's log (capacity 10000) wraps exactly up to the follower's index
+			scenario{N: 120, Branch: "full", LeaderMode: "all", Bursts: []int{4}, Reconnect: true, Offline: leaderLogCapacity})
 	} else {
 		k := 0
 		for _, branch := range []string{"full", "incr"} {
@@ -995,6 +1078,16 @@ func syncScenarios(r *ev.Run, rng *rand.Rand) []scenario {
 				}
 			}
 		}
+	}
+	if r.Thorough() {
+		for i, off := range []int{leaderLogCapacity - 1, leaderLogCapacity, leaderLogCapacity + 1, leaderLogCapacity + 700} {
+			out = append(out, scenario{N: 100 + 50*i, Branch: []string{"full", "incr"}[i%2], LeaderMode: "mixed", Bursts: []int{4}, Reconnect: true, Offline: off})
+		}
+		for _, n := range []int{1, 2, 101, 250, 1000} {
+			out = append(out, scenario{N: n, Branch: "full", LeaderMode: "mixed", Odd: true, Bursts: []int{30}, Reconnect: true, Offline: 40},
+				scenario{N: n, Branch: "incr", LeaderMode: "all", Odd: true, Bursts: []int{101}})
+		}
+		out = append(out, scenario{N: 2500, Branch: "full", LeaderMode: "mixed", Bursts: []int{3}}, scenario{N: 5000, Branch: "full", LeaderMode: "all", Bursts: []int{3}})
 	}
 	for i := range out {
 		out[i].Seed = rng.Int63()
